@@ -12,6 +12,7 @@ mod runner;
 
 mod c05_notify;
 mod c06_layout;
+mod c07_hostile;
 mod cq_queue;
 mod c14_blk;
 mod c16_net;
@@ -103,6 +104,7 @@ fn main() {
                 "C06" => c06_layout::run(&ctx),
                 "C01" | "C02" | "C03" | "C04" => cq_queue::run(&ctx, &prop),
                 "C05" => c05_notify::run(&ctx),
+                "C07" => c07_hostile::run(&ctx),
                 "C14" => c14_blk::run(&ctx),
                 "C16" => c16_net::run(&ctx),
                 "C10" => c10_mmio::run(&ctx),
